@@ -182,9 +182,16 @@ Definition parse_focus (pd : pdict) (raw : str) : res psel :=
 
 Definition is_quote (c : ascii) : bool := mem_str [c] c_sel_QUOTES.
 
+(** [raw_selector.replace("SPARQL", "")] -- every occurrence of the keyword, also
+    inside the query text (findings C10-F10, C15-F10) -- or
+    [raw_selector.replace("SPARQL", "", 1)] -- the leading keyword only (the
+    selector starts with it).  One flag from gen_consts. *)
+Definition strip_sparql_kw (raw : str) : str :=
+  if c_sel_sparql_strip_once then replace_once c_sel_sparql_kw [] raw else replace_all c_sel_sparql_kw [] raw.
+
 (** [_parse_sparql_expression]; [wf] = does [sparql.prepareQuery] accept the text *)
 Definition parse_sparql (wf : str -> bool) (raw : str) : res psel :=
-  let s := strip (replace_all c_sel_sparql_kw [] raw) in
+  let s := strip (strip_sparql_kw raw) in
   match s, at_idx s (-1) with
   | c0 :: _, Some cn =>
     if is_quote c0 && is_quote cn then
